@@ -974,6 +974,107 @@ fn main() {
         },
     );
 
+    // ------------------------------------------------------------------ refused file batches
+    // The file API has its own insert / undo code. An accepted graph; then add_template_files with
+    // ONE name given twice, both files holding a replacement that makes the graph cyclic or dangling:
+    // the call must fail with the graph untouched - every template still renders as before (seeded
+    // change C11-8 replayed the undo log front to back, so the first replacement stayed registered
+    // and the render recursed without end).
+    {
+        let files_dir = std::env::var("C11_FILES_DIR")
+            .map(std::path::PathBuf::from)
+            .unwrap_or_else(|_| std::env::temp_dir().join(format!("verif-c11-files-{}", std::process::id())));
+        let file_of = |dir: &std::path::Path, node: usize, cfg: usize| dir.join(format!("n{node}_c{cfg}.tpl"));
+        let write_all = |dir: &std::path::Path| {
+            std::fs::create_dir_all(dir).expect("scratch directory for the file API");
+            for node in 0..rsp.spec.n {
+                for cfg in 0..rsp.cfgs.len() {
+                    let p = file_of(dir, node, cfg);
+                    if std::fs::read_to_string(&p).ok().as_deref() != Some(rsp.srcs[node][cfg].as_str()) {
+                        std::fs::write(&p, &rsp.srcs[node][cfg]).expect("write template file");
+                    }
+                }
+            }
+        };
+        if run.is_supervisor() {
+            unsafe { std::env::set_var("C11_FILES_DIR", &files_dir) };
+            write_all(&files_dir);
+        }
+        let identity: Vec<usize> = (0..rsp.spec.n).collect();
+        run.family(
+            Family::new(
+                "refused-file-batch-same-name-twice",
+                rsp.items,
+                &format!(
+                    "every ACCEPTED graph of the structure alphabet x every node x every replacement configuration that makes the graph cyclic or dangling, offered through add_template_files as one batch naming the node twice (two files, same content): the call must fail and every template must render as before; {}",
+                    rsp.bounds()
+                ),
+            )
+            .budget(safety_s)
+            .describe(|item| {
+                let idx = rsp.idx(item);
+                describe_graph(&rsp.nm, &rsp.tpls(&idx), &rsp.sources(&idx), &rsp.facts(&idx))
+            })
+            .crash_signature(|item, kind| {
+                let idx = rsp.idx(item);
+                let what = if kind == "hang" { "hang" } else { "overflow" };
+                format!("refused-file-batch-leftover-render-{what}:{}", crash_class(&rsp.nm, &rsp.tpls(&idx), &rsp.facts(&idx)))
+            }),
+            |item, acc: &mut Acc| {
+                let idx = rsp.idx(item);
+                let f = rsp.facts(&idx);
+                if f.may_reject() {
+                    acc.case(false, "refused-file-batch:base-not-accepted");
+                    return;
+                }
+                let srcs = rsp.sources(&idx);
+                let Added::Accepted(t) = add(&rsp.nm, Some(&rsp.proto), &srcs, &identity) else {
+                    acc.case(false, "refused-file-batch:base-not-accepted");
+                    return;
+                };
+                if !files_dir.exists() {
+                    write_all(&files_dir);
+                }
+                let ctx = tera::Context::new();
+                let render_all = |t: &tera::Tera| -> Vec<String> { rsp.nm.names.iter().map(|n| mccore::engine::render(t, n, &ctx).coarse()).collect() };
+                let before = render_all(&t);
+                for node in 0..rsp.spec.n {
+                    for cfg in 0..rsp.cfgs.len() {
+                        let mut idx2 = idx.clone();
+                        idx2[node] = cfg;
+                        if cfg == idx[node] || !rsp.facts(&idx2).must_reject() {
+                            continue;
+                        }
+                        let mut t2 = (*t).clone();
+                        let path = file_of(&files_dir, node, cfg);
+                        let name = rsp.nm.names[node].as_str();
+                        let r = mccore::engine::guarded(|| t2.add_template_files(vec![(path.clone(), Some(name)), (path.clone(), Some(name))]));
+                        let case = || json!({"graph": describe_graph(&rsp.nm, &rsp.tpls(&idx), &srcs, &f), "then": format!("add_template_files([(file, {name:?}), (file, {name:?})]) with the file holding {:?}", rsp.srcs[node][cfg]), "renders_before": before});
+                        match r {
+                            Ok(Err(_)) => {}
+                            Ok(Ok(())) => {
+                                acc.violation("refused-file-batch:accepted", "a replacement that makes the graph cyclic or dangling was accepted".to_string(), case);
+                                continue;
+                            }
+                            Err(p) => {
+                                acc.violation("refused-file-batch:panic", format!("add_template_files panicked: {p}"), case);
+                                continue;
+                            }
+                        }
+                        let after = render_all(&t2);
+                        if after != before {
+                            acc.violation("refused-file-batch:graph-changed", format!("after the refused call the templates render {after:?}"), case);
+                        }
+                        acc.case(true, "refused-file-batch:unchanged");
+                    }
+                }
+            },
+        );
+        if run.is_supervisor() {
+            let _ = std::fs::remove_dir_all(&files_dir);
+        }
+    }
+
     // ------------------------------------------------------------------ chains
     let chain_items = (CHAIN_MAX_NODES * CHAIN_KINDS.len() * CLOSURES.len() * CHAIN_NAMINGS) as u64;
     let chain_parts = |item: u64| {
